@@ -200,9 +200,10 @@ class Run:
                 if key not in [k["key"] for k in self.known_hits]:
                     self.known_hits.append({"key": key, "text": kf["text"] or text})
                 return False
-        os.makedirs(os.path.join(VERIF, "replays"), exist_ok=True)
+        rdir = os.path.join(os.environ.get("ESRV_OUT", VERIF), "replays")
+        os.makedirs(rdir, exist_ok=True)
         n = len(self.violations)
-        path = os.path.join(VERIF, "replays", "%s_%s_%d.json" % (self.pid, self.tier, n))
+        path = os.path.join(rdir, "%s_%s_%d.json" % (self.pid, self.tier, n))
         body = {"property": self.pid, "key": key, "what": text, "tier": self.tier, "seed": self.seed,
                 "no_failing_input_found": bool(no_input), "replay": replay,
                 "how_to_replay": "cd /verif && ./bin/check %s --replay %s" % (self.pid, path)}
@@ -238,8 +239,10 @@ class Run:
         ev = {"property_id": self.pid, "tier": self.tier, "seed": int(self.seed), "level": level,
               "coverage": cov, "assumptions": self.assumptions,
               "wall_s": round(time.time() - self.t0, 2), "violations": len(self.violations)}
-        os.makedirs(os.path.join(VERIF, "evidence"), exist_ok=True)
-        with open(os.path.join(VERIF, "evidence", self.pid + ".json"), "w") as f:
+        # ESRV_OUT (used by tools/seed_eval.py only): evidence and replay files of an evaluation run against a patched scratch checkout go elsewhere
+        evdir = os.path.join(os.environ.get("ESRV_OUT", VERIF), "evidence")
+        os.makedirs(evdir, exist_ok=True)
+        with open(os.path.join(evdir, self.pid + ".json"), "w") as f:
             json.dump(ev, f, indent=1, default=str)
         for k in self.known_hits:
             print("KNOWN-FINDING: property=%s %s [%s]" % (self.pid, k["text"], k["key"]))
